@@ -1,23 +1,33 @@
 """C19 — operations never mutate caller data and never hand out live internal state.
 
-Proof obligations: Props/C19.v (store model with sharing; noninterference for every operation whose effect
-summary is copy-only, by induction over arbitrary client mutation histories; a witness per unsafe effect kind).
-PARTIAL by design: the deciding work is the differential below.
+Proof obligations: Props/C19.v -- (1) store model with sharing: noninterference for every operation whose effect summary is
+copy-only, by induction over arbitrary client mutation histories, a witness per unsafe effect kind; (2) intake model
+(Struct/AliasIntake.v): which isinstance tables of typedpy's defensive-copy decisions keep an ImmutableStructure / a field
+declared immutable from sharing caller-mutable objects, for every declared type and every argument shape; a leaking value for
+every unsafe table entry; typed fields of mutable owners by induction over the type.  PARTIAL by design: the deciding work is
+the differential below.
 
 Tie to the code:
-  * Gen/AliasSites.v is regenerated from the AST of /repo on every run (harness/aliasgen.py): the effect kind of
-    each copy / alias site (_ListStruct.__init__, Array.serialize short-cuts, convert_dict, required.remove, ...).
-  * correspondence: for every generated (operation, class, field type) the effect OBSERVED on the real
-    implementation -- deep snapshot of every argument before/after, then mutation of every container of every
-    argument and of every returned object, comparing instance / class fingerprints -- is compared inside Coq
-    with the effect the model predicts from the generated sites (Check/C19chk.v, vm_compute).
-  * the property's clauses are evaluated directly on the observations; a violation is keyed by effect kind,
-    call site and the type path of the offending container."""
+  * Gen/AliasSites.v (harness/aliasgen.py) and Gen/AliasTables.v (harness/genmods/alias_tables.py) are regenerated from the
+    AST of /repo on every run: the effect kind of each copy / alias site (_ListStruct.__init__, Array.serialize short-cuts,
+    convert_dict, required.remove, ...) and the isinstance tuples of Structure.__setattr__, Field.__set__,
+    ImmutableMixin._get_defensive_copy_if_needed (module constants resolved), the wrappers' copy gates, the Map exception.
+  * correspondence: for every generated (operation, owner kind, field type, ARGUMENT SHAPE) the effect OBSERVED on the real
+    implementation -- deep snapshot of every argument before/after, then mutation of every caller-mutable object of every
+    argument (below tuples, frozensets, plain objects, wrappers of other instances; Structure instances too when the owner
+    promises a copy) and of every returned object, comparing instance / class fingerprints -- is compared inside Coq with the
+    effect the model predicts from the generated facts (Check/C19chk.v, vm_compute).
+  * the property's clauses are evaluated directly on the observations; a violation is keyed by effect kind, call site and the
+    path (declared types, then python kinds below an untyped position) of the offending object.
+Streams: random classes (plain / FastSerializable / ImmutableStructure, fields declared immutable); the deterministic lattice
+owner kind x field type with an untyped position x python kind of the value there; wrapper mutators; failing construction /
+deserialization; Versioned deserialization; schema_to_struct_code; structure_to_schema; derivation; convert_dict."""
 import collections
 import copy
 import inspect
 import json
 import random
+import re
 
 from harness import core
 from harness import coqemit as E
@@ -37,7 +47,8 @@ def gen_type(rnd, depth=0, allow_untyped=True, allow_struct=True, allow_deque=Tr
     if depth >= 2 or r < 0.18:
         return gen_scalar_t(rnd)
     if allow_untyped and r < 0.30:
-        return rnd.choice([["any"], ["arr", None], ["map", None]])
+        return rnd.choice([["any"], ["any"], ["arr", None], ["map", None], ["set", False], ["deque", None]]
+                          if allow_deque else [["any"], ["any"], ["arr", None], ["map", None], ["set", False]])
     if r < 0.58:
         return ["arr", gen_type(rnd, depth + 1, allow_untyped, allow_struct, allow_deque)]
     if r < 0.70:
@@ -45,16 +56,23 @@ def gen_type(rnd, depth=0, allow_untyped=True, allow_struct=True, allow_deque=Tr
     if r < 0.75:
         return ["set", True]
     if r < 0.81:
-        return ["tuple", [gen_type(rnd, depth + 1, False, False, False) for _ in range(rnd.randint(2, 3))]]
+        return ["tuple", [gen_tuple_item(rnd, depth + 1, allow_untyped) for _ in range(rnd.randint(2, 3))]]
     if r < 0.86 and allow_deque:
         # (the regular serializer cannot serialize a Deque nested in a Tuple / positional Array: not generated)
         return ["deque", gen_type(rnd, depth + 1, allow_untyped, allow_struct, allow_deque)]
     if r < 0.90:
-        return ["arrpos", [gen_type(rnd, depth + 1, False, False, False) for _ in range(rnd.randint(1, 2))]]
+        return ["arrpos", [gen_tuple_item(rnd, depth + 1, allow_untyped) for _ in range(rnd.randint(1, 2))]]
     if r < 0.95 and allow_struct and depth < 2:
         return ["struct", [gen_type(rnd, depth + 1, allow_untyped, False, allow_deque) for _ in range(rnd.randint(1, 2))]]
     inner = gen_type(rnd, depth + 1, False, allow_struct, allow_deque)
     return ["opt", inner] if inner[0] not in ("opt", "any") else inner
+
+
+def gen_tuple_item(rnd, depth, allow_untyped):
+    """Item of a Tuple / positional Array: a typed one, or (one in four when untyped positions are allowed) Anything."""
+    if allow_untyped and rnd.random() < 0.25:
+        return ["any"]
+    return gen_type(rnd, depth, False, False, False)
 
 
 def gen_simple_type(rnd, depth=0):
@@ -125,8 +143,9 @@ def emit_aty(t):
 class ClassSpec:
     """A generated class: name, kind (plain | immutable | fast), fields [(name, aty)], inner classes."""
 
-    def __init__(self, name, kind, fields, mapper=None, defaults=None, required=None):
+    def __init__(self, name, kind, fields, mapper=None, defaults=None, required=None, immfields=None):
         self.name, self.kind, self.fields = name, kind, fields
+        self.immfields = list(immfields or [])   # fields declared with the Immutable* variant of their field class
         self.mapper = mapper or {}
         self.defaults = defaults or {}        # field -> python source of the default
         self.required = required
@@ -135,12 +154,18 @@ class ClassSpec:
 
     def to_json(self):
         return {"name": self.name, "kind": self.kind, "fields": self.fields, "mapper": self.mapper,
-                "defaults": self.defaults, "required": self.required}
+                "defaults": self.defaults, "required": self.required, "immfields": self.immfields}
 
     @staticmethod
     def from_json(o):
         return ClassSpec(o["name"], o["kind"], [tuple(f) for f in o["fields"]], o.get("mapper"), o.get("defaults"),
-                         o.get("required"))
+                         o.get("required"), o.get("immfields"))
+
+    def owner(self, fname):
+        """Who promises what about the value of this field: an ImmutableStructure, a field declared immutable, nobody."""
+        if self.kind == "immutable":
+            return "immstruct"
+        return "immfield" if fname in self.immfields else "plain"
 
     # ---- source
     def inner_name(self, t):
@@ -154,8 +179,13 @@ class ClassSpec:
         self.inner_name(t)
         return self.inner[json.dumps(t)][1]
 
-    def field_src(self, t):
+    def field_src(self, t, imm=False):
         k = t[0]
+        if imm:
+            # the library's Immutable* classes where they exist, the documented mixin recipe otherwise
+            plain = self.field_src(t)
+            cls = plain.split("(", 1)[0]
+            return IMM_CLASS[cls] + plain[len(cls):]
         if k == "int":
             return "Integer()"
         if k == "str":
@@ -187,7 +217,7 @@ class ClassSpec:
     def source(self):
         body = []
         for fname, t in self.fields:
-            src = self.field_src(t)
+            src = self.field_src(t, imm=fname in self.immfields)
             if fname in self.defaults:
                 src = src[:-1] + (", " if not src.endswith("()") else "") + "default=%s)" % self.defaults[fname]
             body.append("    %s = %s" % (fname, src))
@@ -215,7 +245,13 @@ class ClassSpec:
 
 
 IMPORTS = ("from typedpy import (Structure, ImmutableStructure, Array, Map, Set, Tuple, Deque, Integer, String, Float, "
-           "Boolean, Anything, AnyOf, NoneField, ClassReference, FastSerializable, create_serializer, DoNotSerialize)\n")
+           "Boolean, Anything, AnyOf, NoneField, ClassReference, FastSerializable, create_serializer, DoNotSerialize, "
+           "ImmutableField, ImmutableArray, ImmutableMap, ImmutableSet, ImmutableDeque)\n"
+           "class ImmutableAnything(ImmutableField, Anything): pass\n"
+           "class ImmutableTuple(ImmutableField, Tuple): pass\n")
+IMM_CLASS = {"Anything": "ImmutableAnything", "Array": "ImmutableArray", "Map": "ImmutableMap", "Set": "ImmutableSet",
+             "Deque": "ImmutableDeque", "Tuple": "ImmutableTuple"}
+IMM_ELIGIBLE = ("any", "arr", "arrpos", "map", "set", "deque", "tuple")
 
 
 def realize(spec):
@@ -231,9 +267,162 @@ def realize(spec):
 
 # ===================================================================================== values
 
-def gen_doc(rnd, t, spec):
-    """A JSON-like document value valid for type t (the Deserializer's input form)."""
+# Documents are kept JSON-able (they go into replay files).  What JSON cannot say -- the python kinds an UNTYPED
+# position may be handed: tuple, set, frozenset, deque, an object of a user class, a list / dict wrapper taken from a
+# field of some other instance -- is written {"$": kind, "v": payload} and turned into the real thing by decode().
+TAG = "$"
+
+
+class Obj:
+    """A plain user object with a (re-assignable, mutable) attribute."""
+
+    def __init__(self, items):
+        self.items = items
+
+    def __eq__(self, other):
+        return isinstance(other, Obj) and other.items == self.items
+
+    def __hash__(self):
+        return 7
+
+    def __repr__(self):
+        return "Obj(%r)" % (self.items,)
+
+
+_HOLDER = {}
+
+
+def holder():
+    """A mutable structure whose fields' wrappers (_ListStruct / _DictStruct) serve as argument values."""
+    if "cls" not in _HOLDER:
+        ns = {}
+        exec(IMPORTS + "class C19Holder(Structure):\n    arr = Array(items=Array(items=Integer()))\n"
+                       "    m = Map(items=[String(), Array(items=Integer())])\n    _required = []\n", ns)  # noqa: S102
+        _HOLDER["cls"] = ns["C19Holder"]
+    return _HOLDER["cls"]
+
+
+def T(kind, payload):
+    return {TAG: kind, "v": payload}
+
+
+def is_tagged(v):
+    return isinstance(v, dict) and TAG in v
+
+
+def decode(v):
+    """The python value a (possibly tagged) document value stands for; always a fresh object graph."""
+    if is_tagged(v):
+        kind, payload = v[TAG], v["v"]
+        if kind == "tuple":
+            return tuple(decode(x) for x in payload)
+        if kind == "set":
+            return {decode(x) for x in payload}
+        if kind == "frozenset":
+            return frozenset(decode(x) for x in payload)
+        if kind == "deque":
+            return collections.deque(decode(x) for x in payload)
+        if kind == "obj":
+            return Obj([decode(x) for x in payload])
+        if kind == "wrap-list":
+            return holder()(arr=copy.deepcopy(payload)).arr
+        if kind == "wrap-dict":
+            return holder()(m=copy.deepcopy(payload)).m
+        raise ValueError(v)
+    if isinstance(v, list):
+        return [decode(x) for x in v]
+    if isinstance(v, dict):
+        return {k: decode(x) for k, x in v.items()}
+    return v
+
+
+def has_exotic(v):
+    """Does the document contain something the serializers are not expected to cope with (anything tagged)?"""
+    if is_tagged(v):
+        return True
+    if isinstance(v, list):
+        return any(has_exotic(x) for x in v)
+    if isinstance(v, dict):
+        return any(has_exotic(x) for x in v.values())
+    return False
+
+
+def gen_hashable(rnd, depth=0):
+    r = rnd.random()
+    if depth >= 2 or r < 0.5:
+        return rnd.choice([1, 2, 5, "h", 0.5])
+    if r < 0.85:
+        return T("tuple", [gen_hashable(rnd, depth + 1) for _ in range(rnd.randint(1, 2))])
+    return T("frozenset", [gen_hashable(rnd, depth + 1) for _ in range(rnd.randint(1, 2))])
+
+
+def gen_anyval(rnd, depth=0):
+    """What a caller may hand to an untyped position: JSON-like nests, and the python kinds around them."""
+    r = rnd.random()
+    if depth >= 3 or r < 0.10:
+        return rnd.choice([1, "s", 2.5, True, None, 0, ""])
+    sub = lambda: gen_anyval(rnd, depth + 1)
+    n = rnd.randint(1, 2)
+    if r < 0.30:
+        return [sub() for _ in range(rnd.randint(0, 2))] if rnd.random() < 0.8 else copy.deepcopy(rnd.choice(JSON_NESTS))
+    if r < 0.45:
+        return {k: sub() for k in rnd.sample(["p", "q", "r"], n)}
+    if r < 0.72:
+        return T("tuple", [sub() for _ in range(rnd.randint(0, 3))])
+    if r < 0.77:
+        return T("set", [gen_hashable(rnd, 1) for _ in range(n)])
+    if r < 0.81:
+        return T("frozenset", [gen_hashable(rnd, 1) for _ in range(n)])
+    if r < 0.87:
+        return T("deque", [sub() for _ in range(n)])
+    if r < 0.92:
+        return T("obj", [sub() for _ in range(n)])
+    if r < 0.96:
+        return T("wrap-list", [[rnd.choice([1, 2, 3]) for _ in range(rnd.randint(1, 2))] for _ in range(n)])
+    return T("wrap-dict", {k: [rnd.choice([1, 2, 3])] for k in rnd.sample(["wa", "wb"], n)})
+
+
+JSON_NESTS = [{"p": [1, 2]}, [1, {"q": [2]}], [[1], [2]], {"a": {"b": [3]}}]
+UNTYPED_LISTS = [[[1], {"a": [2]}], [{"z": [1]}, [3]], [[5, 6]]]
+UNTYPED_DICTS = [{"z": [1, {"q": 2}]}, {"k": {"n": [1]}}]
+
+# the deterministic value lattice of the untyped-position stream: every python kind at the top, mutable and immutable
+# content below it, one and two levels down
+ZOO = [
+    ("scalar", 7),
+    ("list-of-scalars", [1, 2]),
+    ("list-of-lists", [[1], [2]]),
+    ("dict-of-lists", {"p": [1, 2]}),
+    ("tuple-of-scalars", T("tuple", [1, "a"])),
+    ("empty-tuple", T("tuple", [])),
+    ("tuple-of-list", T("tuple", [[1, 2, 3], "tag"])),
+    ("tuple-of-dict", T("tuple", [{"k": [1]}])),
+    ("tuple-of-set", T("tuple", [T("set", [1, 2]), 3])),
+    ("tuple-of-tuple-of-list", T("tuple", [T("tuple", ["x", [1]]), 2])),
+    ("list-of-tuple-of-list", [T("tuple", [[1], 2])]),
+    ("dict-of-tuple-of-list", {"a": T("tuple", [[1], 2])}),
+    ("set-of-scalars", T("set", [1, 2])),
+    ("set-of-tuples", T("set", [T("tuple", [1, 2])])),
+    ("frozenset-of-tuples", T("frozenset", [T("tuple", [1, 2]), 3])),
+    ("deque-of-lists", T("deque", [[1], [2]])),
+    ("tuple-of-deque", T("tuple", [T("deque", [1])])),
+    ("object", T("obj", [1, 2])),
+    ("tuple-of-object", T("tuple", [T("obj", [1]), 1])),
+    ("frozenset-of-object", T("frozenset", [T("obj", [1])])),
+    ("wrapper-list", T("wrap-list", [[1], [2]])),
+    ("wrapper-dict", T("wrap-dict", {"wa": [1]})),
+    ("tuple-of-wrapper", T("tuple", [T("wrap-list", [[1]]), 0])),
+]
+
+
+def gen_doc(rnd, t, spec, anygen=None):
+    """A document value valid for type t (the Deserializer's input form); untyped positions are filled by anygen."""
     k = t[0]
+    def anyval():
+        if anygen is not None:
+            return anygen()
+        v = copy.deepcopy(rnd.choice(JSON_NESTS)) if rnd.random() < 0.45 else gen_anyval(rnd, 1)
+        return 0 if v is None else v          # None at the top of a required field means "absent"
     if k == "int":
         return rnd.choice([0, 1, 7, -3, 12])
     if k == "str":
@@ -243,55 +432,116 @@ def gen_doc(rnd, t, spec):
     if k == "bool":
         return rnd.choice([True, False])
     if k == "any":
-        return copy.deepcopy(rnd.choice([{"p": [1, 2]}, [1, {"q": [2]}], [[1], [2]], {"a": {"b": [3]}}]))
-    if k == "arr":
+        return anyval()
+    if k in ("arr", "deque"):
         if t[1] is None:
-            return copy.deepcopy(rnd.choice([[[1], {"a": [2]}], [{"z": [1]}, [3]]]))
-        return [gen_doc(rnd, t[1], spec) for _ in range(rnd.randint(1, 3))]
-    if k == "deque":
-        if t[1] is None:
-            return copy.deepcopy(rnd.choice([[[1], {"a": [2]}], [[5, 6]]]))
-        return [gen_doc(rnd, t[1], spec) for _ in range(rnd.randint(1, 3))]
+            if anygen is None and rnd.random() < 0.4:
+                return copy.deepcopy(rnd.choice(UNTYPED_LISTS))
+            return [anyval() for _ in range(rnd.randint(1, 2))]
+        return [gen_doc(rnd, t[1], spec, anygen) for _ in range(rnd.randint(1, 3))]
     if k in ("arrpos", "tuple"):
-        return [gen_doc(rnd, x, spec) for x in t[1]]
+        return [gen_doc(rnd, x, spec, anygen) for x in t[1]]
     if k == "map":
         if t[1] is None:
-            return copy.deepcopy(rnd.choice([{"z": [1, {"q": 2}]}, {"k": {"n": [1]}}]))
-        return {key: gen_doc(rnd, t[1], spec) for key in rnd.sample(["k1", "k2", "x"], rnd.randint(1, 2))}
+            if anygen is None and rnd.random() < 0.4:
+                return copy.deepcopy(rnd.choice(UNTYPED_DICTS))
+            return {key: anyval() for key in rnd.sample(["k1", "k2", "x"], rnd.randint(1, 2))}
+        return {key: gen_doc(rnd, t[1], spec, anygen) for key in rnd.sample(["k1", "k2", "x"], rnd.randint(1, 2))}
     if k == "set":
-        return rnd.choice([[1, 2], [5], [3, 4, 9]])
+        if t[1]:
+            return rnd.choice([[1, 2], [5], [3, 4, 9]])
+        xs = [gen_hashable(rnd, 1) for _ in range(rnd.randint(1, 3))]
+        return [x for i, x in enumerate(xs) if x not in xs[:i]]
     if k == "struct":
-        return {f: gen_doc(rnd, x, spec) for f, x in spec.inner_fields(t) if not (x[0] == "opt" and rnd.random() < 0.2)}
+        return {f: gen_doc(rnd, x, spec, anygen) for f, x in spec.inner_fields(t) if not (x[0] == "opt" and rnd.random() < 0.2)}
     if k == "opt":
-        return gen_doc(rnd, t[1], spec)
+        return gen_doc(rnd, t[1], spec, anygen)
     raise ValueError(t)
 
 
 def doc_to_ctor(t, v, spec, ns):
-    """The constructor-argument form of a document value (sets, tuples, deques, nested instances)."""
+    """The constructor-argument form of a document value (sets, tuples, deques, nested instances); always fresh."""
     k = t[0]
     if v is None:
         return None
-    if k in SCALARS or k == "any":
-        return copy.deepcopy(v)
+    if k in SCALARS:
+        return v
+    if k == "any":
+        return decode(v)
     if k == "arr":
-        return copy.deepcopy(v) if t[1] is None else [doc_to_ctor(t[1], x, spec, ns) for x in v]
+        return decode(v) if t[1] is None else [doc_to_ctor(t[1], x, spec, ns) for x in v]
     if k == "deque":
-        return collections.deque(copy.deepcopy(v) if t[1] is None else [doc_to_ctor(t[1], x, spec, ns) for x in v])
+        return collections.deque(decode(v) if t[1] is None else [doc_to_ctor(t[1], x, spec, ns) for x in v])
     if k == "arrpos":
         return [doc_to_ctor(x, y, spec, ns) for x, y in zip(t[1], v)]
     if k == "tuple":
         return tuple(doc_to_ctor(x, y, spec, ns) for x, y in zip(t[1], v))
     if k == "map":
-        return copy.deepcopy(v) if t[1] is None else {kk: doc_to_ctor(t[1], x, spec, ns) for kk, x in v.items()}
+        return decode(v) if t[1] is None else {kk: doc_to_ctor(t[1], x, spec, ns) for kk, x in v.items()}
     if k == "set":
-        return set(v)
+        return set(decode(v))
     if k == "struct":
         cls = ns[spec.inner_name(t)]
         fs = dict(spec.inner_fields(t))
         return cls(**{f: doc_to_ctor(fs[f], x, spec, ns) for f, x in v.items()})
     if k == "opt":
         return doc_to_ctor(t[1], v, spec, ns)
+    raise ValueError(t)
+
+
+# ---- shapes (the model's view of an argument value: Struct/AliasIntake.v)
+
+def any_shape(v):
+    from typedpy.fields.collections_impl import _ListStruct, _DictStruct, _DequeStruct
+    if isinstance(v, (_ListStruct, _DequeStruct)):
+        return "(VWrapper %s)" % E.lst([any_shape(x) for x in (list.__iter__(v) if isinstance(v, list) else collections.deque.__iter__(v))])
+    if isinstance(v, _DictStruct):
+        return "(VWrapper %s)" % E.lst([any_shape(x) for x in dict.values(v)])
+    if is_struct(v):
+        return "VInst"
+    if isinstance(v, list):
+        return "(VList %s)" % E.lst([any_shape(x) for x in v])
+    if isinstance(v, tuple):
+        return "(VTuple %s)" % E.lst([any_shape(x) for x in v])
+    if isinstance(v, collections.deque):
+        return "(VDeque %s)" % E.lst([any_shape(x) for x in v])
+    if isinstance(v, frozenset):
+        return "(VFrozenset %s)" % E.lst(sorted(any_shape(x) for x in v))
+    if isinstance(v, set):
+        return "(VSet %s)" % E.lst(sorted(any_shape(x) for x in v))
+    if isinstance(v, dict):
+        return "(VDict %s)" % E.lst([any_shape(x) for x in v.values()])
+    if isinstance(v, Obj):
+        return "(VObj %s)" % E.lst([any_shape(v.items)])
+    return "VAtom"
+
+
+def shape_of(t, v, spec, deser):
+    """Gallina vshape of the argument object v handed to a field of type t."""
+    k = t[0]
+    if k in SCALARS:
+        return "VAtom"
+    if k == "any":
+        return any_shape(v)
+    if k == "opt":
+        return shape_of(t[1], v, spec, deser)
+    if k in ("arr", "deque", "set"):
+        con = "VDeque" if isinstance(v, collections.deque) else "VFrozenset" if isinstance(v, frozenset) else \
+            "VSet" if isinstance(v, set) else "VList"
+        if k == "set" or t[1] is None:
+            elems = [any_shape(x) for x in v]
+            return "(%s %s)" % (con, E.lst(sorted(elems) if k == "set" else elems))
+        return "(%s %s)" % (con, E.lst([shape_of(t[1], x, spec, deser) for x in v]))
+    if k in ("arrpos", "tuple"):
+        con = "VTuple" if isinstance(v, tuple) else "VList"
+        return "(%s %s)" % (con, E.lst([shape_of(x, y, spec, deser) for x, y in zip(t[1], v)]))
+    if k == "map":
+        return "(VDict %s)" % E.lst([any_shape(x) if t[1] is None else shape_of(t[1], x, spec, deser) for x in v.values()])
+    if k == "struct":
+        if is_struct(v):
+            return "VInst"
+        return "(VRec %s)" % E.lst(["(Some %s)" % shape_of(ft, v[f], spec, deser) if f in v else "None"
+                                    for f, ft in spec.inner_fields(t)])
     raise ValueError(t)
 
 
@@ -397,45 +647,108 @@ def class_fp(cls):
 
 # ===================================================================================== walking and mutating
 
-def containers(o, t, spec, chain=(), out=None, seen=None):
-    """Every mutable container reachable from o through lists / tuples / dicts / sets / deques (never through a
-    Structure instance), each with the type path that leads to it."""
+def kind_of(o):
+    """Label of an object sitting at an untyped position: its python kind."""
+    from typedpy.fields.collections_impl import _ListStruct, _DictStruct, _DequeStruct
+    if isinstance(o, (_ListStruct, _DequeStruct)):
+        return "wrapper-list"
+    if isinstance(o, _DictStruct):
+        return "wrapper-dict"
+    if is_struct(o):
+        return "instance"
+    for ty, name in ((list, "list"), (tuple, "tuple"), (collections.deque, "deque"), (frozenset, "frozenset"), (set, "set"),
+                     (dict, "dict"), (Obj, "object")):
+        if isinstance(o, ty):
+            return name
+    return "scalar"
+
+
+def containers(o, t, spec, chain=(), out=None, seen=None, into_instances=False):
+    """Every caller-mutable object reachable from o through lists / tuples / dicts / sets / frozensets / deques / plain
+    objects, each with the path that leads to it: declared types where there are any, python kinds below an untyped
+    position.  Structure instances are objects with identity, shared by design by a mutable owner: they are entered
+    (and listed) only when the owner promises a defensive copy (into_instances)."""
     out = [] if out is None else out
     seen = set() if seen is None else seen
-    if id(o) in seen or is_struct(o):
+    if id(o) in seen:
+        return out
+    if is_struct(o):
+        if into_instances:
+            seen.add(id(o))
+            out.append((o, ".".join(chain + ("instance",))))
         return out
     k = t[0] if t is not None else None
     if k == "opt":
-        return containers(o, t[1], spec, chain + ("Optional",), out, seen)
-    if isinstance(o, (list, collections.deque, set, dict)):
+        return containers(o, t[1], spec, chain + ("Optional",), out, seen, into_instances)
+    untyped = t is None or k == "any"
+    here = kind_of(o) if t is None else (label(t) + "." + kind_of(o) if k == "any" else label(t))
+    down = kind_of(o) if t is None else (leaf(t) + "." + kind_of(o) if k == "any" else leaf(t))
+    if isinstance(o, (list, collections.deque, set, dict, Obj)):
         seen.add(id(o))
-        out.append((o, ".".join(chain + (label(t),))))
-    if isinstance(o, (list, tuple, collections.deque)):
-        elems = list(o) if not isinstance(o, list) else list(list.__iter__(o))
+        out.append((o, ".".join(chain + (here,))))
+    if isinstance(o, Obj):
+        containers(o.items, None, spec, chain + (down,), out, seen, into_instances)
+    elif isinstance(o, (list, tuple, collections.deque, set, frozenset)):
+        elems = list(list.__iter__(o)) if isinstance(o, list) else list(o)
         for i, x in enumerate(elems):
-            if k in ("arr", "deque") and t[1] is not None:
+            if not untyped and k in ("arr", "deque") and t[1] is not None:
                 sub = t[1]
-            elif k in ("arrpos", "tuple") and i < len(t[1]):
+            elif not untyped and k in ("arrpos", "tuple") and i < len(t[1]):
                 sub = t[1][i]
             else:
                 sub = None
-            containers(x, sub, spec, chain + (leaf(t),), out, seen)
+            containers(x, sub, spec, chain + (down,), out, seen, into_instances)
     elif isinstance(o, dict):
         inner = dict(spec.inner_fields(t)) if k == "struct" else None
         for kk, x in list(dict.items(o)):
-            if k == "map" and t[1] is not None:
+            if not untyped and k == "map" and t[1] is not None:
                 sub = t[1]
             elif inner is not None:
                 sub = inner.get(kk)
             else:
                 sub = None
-            containers(x, sub, spec, chain + (leaf(t),), out, seen)
+            containers(x, sub, spec, chain + (down,), out, seen, into_instances)
     return out
+
+
+def mutate_instance(o):
+    """What a client does to a Structure instance it made: assign one of its fields (a valid value first)."""
+    before = snap(o)
+    for name in type(o).get_all_fields_by_name():
+        val = o.__dict__.get(name)
+        if isinstance(val, bool):
+            cands = [not val]
+        elif isinstance(val, int):
+            cands = [val + 1000]
+        elif isinstance(val, float):
+            cands = [val + 1000.5]
+        elif isinstance(val, str):
+            cands = [val + "M"]
+        elif isinstance(val, list):
+            cands = [list(list.__iter__(val)) + list(list.__iter__(val))[:1]]
+        elif isinstance(val, dict):
+            cands = [{}]
+        else:
+            cands = []
+        for c in cands:
+            try:
+                setattr(o, name, c)
+            except Exception:  # noqa
+                continue
+            if snap(o) != before:
+                return
+    for name in type(o).get_all_fields_by_name():          # no valid reassignment found: write through
+        o.__dict__[name] = MUT
+        return
 
 
 def mutate(o):
     """What a client does to an object it believes is its own: add an element (a plausible one first)."""
-    if isinstance(o, (list, collections.deque)):
+    if is_struct(o):
+        mutate_instance(o)
+    elif isinstance(o, Obj):
+        o.items = list(o.items) + [MUT]
+    elif isinstance(o, (list, collections.deque)):
         base = list if isinstance(o, list) else collections.deque
         elems = list(base.__iter__(o))
         dup = elems[0] if elems and isinstance(elems[0], (int, float, str, bool)) else MUT
@@ -467,11 +780,12 @@ def probe(objs_by_field, fp, types, spec):
     base = fp()
     hits = {}
     for fname, obj in objs_by_field.items():
-        for c, path in containers(obj, types.get(fname), spec):
+        own = spec.owner(fname)
+        for c, path in containers(obj, types.get(fname), spec, into_instances=own != "plain"):
             mutate(c)
             now = fp()
             if now != base:
-                hits.setdefault(fname, []).append(path)
+                hits.setdefault(fname, []).append(("Immutable" + path) if own == "immfield" else path)
                 base = now
     return hits
 
@@ -485,13 +799,15 @@ def kwargs_of(spec, ns, doc):
 
 def run_field_op(op, spec, doc, rnd=None, extra=None):
     """Runs one operation of the property on the real implementation.
-    Returns dict field -> (written, retained, live, detail) and a list of extra failures [(key, what)]."""
+    Returns dict field -> [written, retained, live, detail, shape of the argument] and a list of extra failures
+    [(key, what)]."""
     from typedpy import Deserializer, Serializer, serialize, deserialize_structure
     cls, ns, src = realize(spec)
     ts = dict(spec.fields)
-    res = {f: [False, False, False, []] for f, _ in spec.fields}
+    res = {f: [False, False, False, [], "VAtom"] for f, _ in spec.fields}
     extras = []
     cfp0 = class_fp(cls)
+    exotic = has_exotic(doc)
 
     def check_written(args, before, what):
         for f in args:
@@ -501,6 +817,8 @@ def run_field_op(op, spec, doc, rnd=None, extra=None):
 
     if op in ("ctor", "setattr"):
         kw = kwargs_of(spec, ns, doc)
+        for f, v in kw.items():
+            res[f][4] = shape_of(ts[f], v, spec, False)
         if op == "ctor":
             before = {f: snap(v) for f, v in kw.items()}
             x = cls(**kw)
@@ -514,7 +832,7 @@ def run_field_op(op, spec, doc, rnd=None, extra=None):
                 try:
                     setattr(x, f, v)
                 except ValueError:
-                    if spec.kind != "immutable":
+                    if spec.owner(f) == "plain":
                         raise
                 if snap(v) != b:
                     res[f][0] = True
@@ -526,7 +844,9 @@ def run_field_op(op, spec, doc, rnd=None, extra=None):
             res[f][1] = True
             res[f][3] += [("retained", p) for p in paths]
     elif op in ("deser", "deser-fn", "deser-mapper", "deser-trusted"):
-        d = copy.deepcopy(doc)
+        d = decode(doc)
+        for f, v in d.items():
+            res[f][4] = shape_of(ts[f], v, spec, True)
         before = {f: snap(v) for f, v in d.items()}
         whole = snap(d)
         mapper = None
@@ -581,25 +901,33 @@ def run_field_op(op, spec, doc, rnd=None, extra=None):
     elif op in ("ser", "ser-fn", "ser-mapper", "ser-fast"):
         x = cls(**kwargs_of(spec, ns, doc))
         ref = copy.deepcopy(x)
+        fp_before = inst_fp(x, ref)
         keymap = {f: f for f, _ in spec.fields}
-        if op == "ser":
-            r = Serializer(x).serialize()
-        elif op == "ser-fn":
-            r = serialize(x)
-        elif op == "ser-fast":
-            r = x.serialize()
-        else:
-            fs = [f for f, _ in spec.fields][:2]
-            mapper = {f: f + "_out" for f in fs}
-            msnap = snap(mapper)
-            r = Serializer(x, mapper=mapper).serialize()
-            keymap.update(mapper)
-            if snap(mapper) != msnap:
-                extras.append(("writes-arg/Serializer/mapper", "Serializer modified the mapper dict it was given"))
+        try:
+            if op == "ser":
+                r = Serializer(x).serialize()
+            elif op == "ser-fn":
+                r = serialize(x)
+            elif op == "ser-fast":
+                r = x.serialize()
+            else:
+                fs = [f for f, _ in spec.fields][:2]
+                mapper = {f: f + "_out" for f in fs}
+                msnap = snap(mapper)
+                r = Serializer(x, mapper=mapper).serialize()
+                keymap.update(mapper)
+                if snap(mapper) != msnap:
+                    extras.append(("writes-arg/Serializer/mapper", "Serializer modified the mapper dict it was given"))
+        except Exception:  # noqa
+            if not exotic:
+                raise
+            return None, [], src      # a tuple / set / deque / object at an untyped position the serializers reject
         if not isinstance(r, dict):
             return None, [], src
         parts = {f: r[keymap[f]] for f in keymap if keymap[f] in r}
         fp = lambda: inst_fp(x, ref)
+        if fp() != fp_before:         # the instance is the argument of a serialization
+            extras.append(("writes-arg/%s/instance" % site_of(op, spec.kind), "serializing changed the observable state of the instance"))
         hits = probe(parts, fp, ts, spec)
         for f, paths in hits.items():
             res[f][2] = True
@@ -613,6 +941,58 @@ def run_field_op(op, spec, doc, rnd=None, extra=None):
     if class_fp(cls) != cfp0:
         extras.append(("class-state/%s" % op, "the operation (or mutation of its arguments / results) changed the class's observable state"))
     return res, extras, src
+
+
+MUTATORS = {"arr": ["append", "extend", "insert", "setitem"], "deque": ["append", "appendleft", "extend"],
+            "map": ["setitem", "update", "setdefault"]}
+CONTAINER_NAME = {"arr": "Array", "deque": "Deque", "map": "Map"}
+
+
+def plan_mutators(rnd, spec, doc):
+    """For every collection field of a mutable owner: one mutator of its wrapper and a valid element to hand to it."""
+    out = {}
+    for f, t in spec.fields:
+        if spec.owner(f) != "plain" or t[0] not in MUTATORS or not doc.get(f):
+            continue
+        et = t[1] if t[1] is not None else ["any"]
+        out[f] = [rnd.choice(MUTATORS[t[0]]), gen_doc(rnd, et, spec)]
+    return out
+
+
+def run_mutator(spec, doc, extra):
+    """Assignment through the collection wrappers (x.f.append(e), x.f[0] = e, x.m.update({k: e}), ...): the element
+    handed over is an argument like any other.  Returns [(field, method, element type, shape, written, retained, paths)]."""
+    cls, ns, src = realize(spec)
+    ts = dict(spec.fields)
+    x = cls(**kwargs_of(spec, ns, doc))
+    out = []
+    for f, (method, edoc) in extra.items():
+        t = ts[f]
+        et = t[1] if t[1] is not None else ["any"]
+        e = doc_to_ctor(et, edoc, spec, ns)
+        shape = shape_of(et, e, spec, False)
+        before = snap(e)
+        w = getattr(x, f)
+        if t[0] == "map":
+            if method == "setitem":
+                w["nk"] = e
+            elif method == "update":
+                w.update({"nk": e})
+            else:
+                w.setdefault("nk", e)
+        elif method == "setitem":
+            w[0] = e
+        elif method == "insert":
+            w.insert(0, e)
+        elif method == "extend":
+            w.extend([e])
+        else:
+            getattr(w, method)(e)
+        written = snap(e) != before
+        ref = copy.deepcopy(x)
+        hits = probe({f: e}, lambda: inst_fp(x, ref), {f: et}, spec)
+        out.append((f, method, et, shape, written, bool(hits.get(f)), hits.get(f, [])))
+    return out, src
 
 
 def run_failing(op, spec, doc, bad_field, bad_value):
@@ -643,6 +1023,21 @@ def run_failing(op, spec, doc, bad_field, bad_value):
         if snap(d) != before:
             fails.append(("writes-arg/Deserializer-failing", "a failing deserialization modified its input document"))
     return fails, src
+
+
+INTAKE_OPS = ("ctor", "setattr", "deser", "deser-fn", "deser-mapper")
+OWNER = {"plain": "OwnPlain", "immstruct": "OwnImmStruct", "immfield": "OwnImmField"}
+# field types with an untyped position, for the lattice stream
+LATTICE_TYPES = [["any"], ["arr", None], ["arr", ["any"]], ["map", None], ["map", ["any"]], ["deque", None], ["deque", ["any"]],
+                 ["set", False], ["tuple", [["any"], ["str"]]], ["arrpos", [["any"], ["int"]]], ["struct", [["any"], ["int"]]],
+                 ["arr", ["arr", ["any"]]], ["map", ["arr", None]], ["opt", ["arr", ["any"]]], ["arr", ["tuple", [["any"], ["int"]]]],
+                 ["arr", ["struct", [["any"]]]]]
+
+
+def zoo_hashable(v):
+    if is_tagged(v):
+        return v[TAG] in ("tuple", "frozenset") and all(zoo_hashable(x) for x in v["v"])
+    return not isinstance(v, (list, dict))
 
 
 OPID = {"ctor": "OCtor", "setattr": "OSetattr", "deser": "ODeser", "deser-fn": "ODeser", "deser-mapper": "ODeser",
@@ -876,10 +1271,95 @@ def run_convert(doc, maps_ast):
     return written, live, shares_mapping
 
 
+VERSIONED_SRC = """from typedpy import Versioned, Constant, FunctionCall, Deleted
+class %(name)s(%(bases)s):
+    a = Array(items=Integer())
+    m = Map(items=[String(), Array(items=Integer())])
+    p = Anything()
+    n = Integer()
+    _required = ['a', 'm', 'p', 'n']
+    _versions_mapping = [
+        {"a": "old_a", "old_a": Deleted, "n": Constant(5)},
+        {"m": "old_m", "old_m": Deleted, "p": FunctionCall(func=lambda x: x, args=["p"])},
+    ]
+"""
+VERSIONED_TYPES = {"a": ["arr", ["int"]], "old_a": ["arr", ["int"]], "m": ["map", ["arr", ["int"]]],
+                   "old_m": ["map", ["arr", ["int"]]], "p": ["any"]}
+
+
+def gen_versioned(rnd):
+    immutable = rnd.random() < 0.4
+    version = rnd.choice([1, 1, 2, 3])
+    empty = ClassSpec("X", "plain", [])
+    a = gen_doc(rnd, ["arr", ["int"]], empty)
+    m = gen_doc(rnd, ["map", ["arr", ["int"]]], empty)
+    pv = gen_doc(rnd, ["any"], empty)
+    doc = {"version": version, "p": pv}
+    doc["old_a" if version == 1 else "a"] = a
+    doc["old_m" if version <= 2 else "m"] = m
+    if version >= 2:
+        doc["n"] = 9
+    return immutable, doc, rnd.choice(["Deserializer", "deserialize_structure"])
+
+
+def mapping_snap(maps):
+    out = []
+    for mp in maps:
+        row = []
+        for k, v in mp.items():
+            if isinstance(v, (str, type)):
+                row.append((k, repr(v)))
+            elif callable(v) and not hasattr(v, "args"):
+                row.append((k, type(v).__name__, snap(v())))
+            else:
+                row.append((k, type(v).__name__, snap(getattr(v, "args", None)), id(getattr(v, "func", None))))
+        out.append(tuple(row))
+    return tuple(out)
+
+
+def run_versioned(immutable, doc, api):
+    """Deserializing an old-version document of a Versioned class ("converting versions"): the document and the
+    class's mapping list are left alone, and nothing of the document is kept."""
+    from typedpy import Deserializer, deserialize_structure
+    ns = {}
+    src = IMPORTS + VERSIONED_SRC % {"name": "C19V", "bases": "Versioned, ImmutableStructure" if immutable else "Versioned"}
+    exec(src, ns)  # noqa: S102
+    cls = ns["C19V"]
+    d = decode(doc)
+    maps = cls._versions_mapping
+    bm, bd = mapping_snap(maps), snap(d)
+    before = {f: snap(v) for f, v in d.items()}
+    cfp0 = class_fp(cls)
+    x = Deserializer(cls).deserialize(d) if api == "Deserializer" else deserialize_structure(cls, d)
+    res = {}
+    for f in d:
+        if f in VERSIONED_TYPES:
+            res[f] = [snap(d[f]) != before[f], False, []]
+    extras = []
+    if snap(d) != bd and not any(r[0] for r in res.values()):
+        extras.append(("writes-arg/Versioned-%s/document-keys" % api, "deserializing a versioned document changed its key set / version"))
+    if mapping_snap(maps) != bm:
+        extras.append(("writes-arg/Versioned-%s/_versions_mapping" % api, "deserializing a versioned document changed the class's mapping list"))
+    ref = copy.deepcopy(x)
+    spec = ClassSpec("C19V", "immutable" if immutable else "plain", [(f, VERSIONED_TYPES[f]) for f in res])
+    hits = probe({f: d[f] for f in res}, lambda: inst_fp(x, ref), VERSIONED_TYPES, spec)
+    for f, paths in hits.items():
+        res[f][1] = True
+        res[f][2] = paths
+    if class_fp(cls) != cfp0 or mapping_snap(maps) != bm:
+        extras.append(("class-state/Versioned-%s" % api, "deserializing (or mutating the document afterwards) changed the class"))
+    return res, extras, src
+
+
 # ===================================================================================== replay
 
 def python_src(src, op, doc):
-    return src + "\n# operation: %s\n# input (document form): %r\n" % (op, doc)
+    try:
+        vals = repr(decode(doc))
+    except Exception:  # noqa
+        vals = "?"
+    return src + "\n# operation: %s\n# input (document form; {'$': kind, 'v': ...} = a python tuple / set / deque / object / wrapper): %r\n" \
+                 "# the python values handed over: %s\n" % (op, doc, vals)
 
 
 def replay(obj):
@@ -891,13 +1371,37 @@ def replay(obj):
         print("operation:", obj["op"], " input (document form):", obj["doc"])
         bad = 0
         ts = dict(spec.fields)
-        for f, (w, r, l, detail) in (res or {}).items():
-            print("field %-4s %-40s written=%s retained=%s live=%s %s" % (f, json.dumps(ts[f]), w, r, l, detail))
-            if (typed_inside(ts[f]) or spec.kind == "immutable") and (w or r or l):
+        for f, (w, r, l, detail, shape) in (res or {}).items():
+            print("field %-4s %-40s owner=%-9s written=%s retained=%s live=%s %s" % (f, json.dumps(ts[f]), spec.owner(f), w, r, l, detail))
+            if (typed_inside(ts[f]) or spec.owner(f) != "plain") and (w or r or l):
                 bad += 1
         for k, what in extras:
             print("FAILS:", k, "-", what)
-        print("required: every argument equal to its snapshot, no fingerprint change under mutation (typed fields)")
+        print("required: every argument equal to its snapshot, no fingerprint change under mutation (typed fields, and "
+              "every field of an ImmutableStructure / every field declared immutable)")
+        return 1 if bad or extras else 0
+    if kind == "mutator":
+        spec = ClassSpec.from_json(obj["spec"])
+        outs, src = run_mutator(spec, obj["doc"], obj["extra"])
+        print(src)
+        print("instance built from (document form):", obj["doc"])
+        bad = 0
+        for f, method, et, shape, w, r, paths in outs:
+            print("x.%s.%s(%r): element type %s written=%s retained=%s %s" % (f, method, decode(obj["extra"][f][1]), json.dumps(et), w, r, paths))
+            if typed_inside(et) and (w or r):
+                bad += 1
+        print("required: the element handed to the mutator equals its snapshot, and mutating it afterwards does not change the instance (typed elements)")
+        return 1 if bad else 0
+    if kind == "versioned":
+        res, extras, src = run_versioned(obj["immutable"], obj["doc"], obj["api"])
+        print(src)
+        print("document:", obj["doc"], " api:", obj["api"])
+        bad = 0
+        for f, (w, r, paths) in res.items():
+            print("document field %-6s written=%s retained=%s %s" % (f, w, r, paths))
+            bad += 1 if (w or r) and (typed_inside(VERSIONED_TYPES[f]) or obj["immutable"]) else 0
+        for k, what in extras:
+            print("FAILS:", k, "-", what)
         return 1 if bad or extras else 0
     if kind == "code":
         written, where, outcome = run_code_required((obj["schema"], obj["definitions"], obj["via_definitions"]))
@@ -943,10 +1447,12 @@ def run(rep, tier):
     rep.assumptions += [
         "PARTIAL: the theorem covers the aliasing logic of effect summaries; which summary each typedpy operation has is "
         "established by the generated site facts and by the before/after differential, not by proof over the Python code",
-        "scope: typed fields (no Anything / untyped Array, Map, Deque, Set position at any depth) and every field of an "
-        "ImmutableStructure; untyped positions of mutable structures are handed by reference by design: they are checked "
-        "against the model's prediction but never reported as violations",
-        "Structure instances passed as arguments are shared by reference (object composition); mutation does not descend into them",
+        "scope: typed fields (no Anything / untyped Array, Map, Deque, Set position at any depth), every field of an "
+        "ImmutableStructure and every field declared immutable (ImmutableField mixin); untyped positions of mutable owners are "
+        "handed by reference by design: they are checked against the model's prediction but never reported as violations",
+        "Structure instances passed as arguments to a MUTABLE owner are shared by reference (object composition): mutation does "
+        "not descend into them; an immutable owner must copy them, there they are mutated like any other argument",
+        "getters (x.f, x.f[i], iteration) are not operations of the property and are not examined",
         "the definitions dict of structure_to_schema is the documented accumulator and is excepted",
     ]
     fail_fast0 = getattr(Structure, "_fail_fast", True)
@@ -960,16 +1466,19 @@ def run(rep, tier):
     plan = []
     for ci in range(nclasses):
         r = rnd.random()
-        kind = "plain" if r < 0.5 else ("fast" if r < 0.8 else "immutable")
+        kind = "plain" if r < 0.45 else ("fast" if r < 0.70 else "immutable")
         simple = rnd.random() < 0.2
         nf = rnd.randint(1, 4)
         name = "C19s%d_%d" % (core.seed(), ci)
+        immfields = []
         if simple:
             fields = [("f%d" % i, gen_simple_type(rnd)) for i in range(nf)]
             kind = "plain"
         else:
             fields = [("f%d" % i, gen_type(rnd, 0, allow_untyped=(kind != "fast" or rnd.random() < 0.3))) for i in range(nf)]
-        spec = ClassSpec(name, kind, fields)
+            if kind == "plain":
+                immfields = [f for f, t in fields if t[0] in IMM_ELIGIBLE and rnd.random() < 0.4]
+        spec = ClassSpec(name, kind, fields, immfields=immfields)
         doc = {}
         for f, t in fields:
             if t[0] == "opt" and rnd.random() < 0.15:
@@ -981,6 +1490,25 @@ def run(rep, tier):
         if simple:
             ops.append("deser-trusted")
         plan.append((spec, doc, ops))
+    nrandom = len(plan)
+    # the untyped-position lattice (deterministic): owner kind x field type with an untyped position x python kind of
+    # the value sitting there x intake operation
+    li = 0
+    for owner in ("plain", "immstruct", "immfield"):
+        for t in LATTICE_TYPES:
+            if owner == "immfield" and t[0] not in IMM_ELIGIBLE:
+                continue
+            randoms = [("random", (gen_hashable(rnd) if t[0] == "set" else gen_anyval(rnd))) for _ in range(2 if tier == "quick" else 14)]
+            for zname, zval in ZOO + [(n, 0 if v is None else v) for n, v in randoms]:
+                if t[0] == "set" and not zoo_hashable(zval):
+                    continue
+                li += 1
+                spec = ClassSpec("C19z%d_%d" % (core.seed(), li), "immutable" if owner == "immstruct" else "plain",
+                                 [("f0", ["int"]), ("f1", t)], immfields=["f1"] if owner == "immfield" else [])
+                doc = {"f0": 3, "f1": gen_doc(rnd, t, spec, anygen=lambda zval=zval: copy.deepcopy(zval))}
+                ops = ["ctor", "deser"] + (["setattr"] if owner != "immstruct" and li % 3 == 0 else []) + \
+                      (["ser"] if li % 4 == 0 else [])
+                plan.append((spec, doc, ops))
 
     for spec, doc, ops in plan:
         ts = dict(spec.fields)
@@ -995,17 +1523,25 @@ def run(rep, tier):
             if res is None:
                 rep.stat(op, "not-applicable")
                 continue
-            for f, (w, r, l, detail) in res.items():
+            for f, (w, r, l, detail, shape) in res.items():
                 if f not in doc:
                     continue
                 t = ts[f]
-                inside = typed_inside(t) or spec.kind == "immutable"
-                rep.count(op, 1, (op, spec.kind, json.dumps(t)) if t[0] not in SCALARS else None)
+                own = spec.owner(f)
+                inside = typed_inside(t) or own != "plain"
+                rep.count(op, 1, (op, spec.kind, own, json.dumps(t), shape) if t[0] not in SCALARS else None)
                 rep.stat(op, "field-kind:" + leaf(t))
-                rep.stat(op, "scope:" + ("typed" if inside else "untyped-by-design"))
-                add_case("(CField %s %s %s %s)" % (opid_of(op, spec.kind), E.blit(spec.kind == "immutable"), emit_aty(t), obs_lit(w, r, l)),
-                         {"kind": "field", "spec": spec.to_json(), "op": op, "doc": doc, "field": f, "type": t,
-                          "observed": [w, r, l], "detail": detail, "py_violates": inside and (w or r or l)})
+                rep.stat(op, "owner:" + own)
+                rep.stat(op, "scope:" + ("typed" if typed_inside(t) else "untyped-in-immutable-owner" if inside else "untyped-by-design"))
+                desc = {"kind": "field", "spec": spec.to_json(), "op": op, "doc": doc, "field": f, "type": t, "owner": own,
+                        "observed": [w, r, l], "detail": detail, "py_violates": inside and (w or r or l)}
+                if op in INTAKE_OPS:
+                    if not typed_inside(t):
+                        for kk in sorted(set(re.findall(r"V[A-Z][a-z]+", shape))):
+                            rep.stat(op, "untyped-position-value-contains:" + kk)
+                    add_case("(CIntake %s %s %s %s %s)" % (OPID[op], OWNER[own], emit_aty(t), shape, obs_lit(w, r, l)), desc)
+                else:
+                    add_case("(CField %s %s %s %s)" % (opid_of(op, spec.kind), E.blit(own != "plain"), emit_aty(t), obs_lit(w, r, l)), desc)
                 if (w or r or l):
                     rep.stat(op, "effect:" + ",".join(sorted({k for k, _ in detail})) + ("" if inside else "(untyped)"))
                 if inside:
@@ -1039,7 +1575,40 @@ def run(rep, tier):
             for k, what in fails:
                 rep.finding("C19/" + k, what, {"kind": "field", "spec": spec.to_json(), "op": "ctor" if op == "ctor-fail" else "deser",
                                                "doc": dict(doc, **{f: bad}), "python": python_src(src, op, doc)})
+    # assignment through the collection wrappers of mutable owners
+    for spec, doc, ops in plan[:nrandom]:
+        extra = plan_mutators(rnd, spec, doc)
+        if not extra:
+            continue
+        try:
+            outs, src = run_mutator(spec, doc, extra)
+        except Exception as e:  # noqa
+            rep.stat("mutator", "harness-error:" + type(e).__name__)
+            rep.broken("generator:mutator", "a wrapper mutator raised %s: %s on a generated valid element" % (type(e).__name__, e),
+                       {"kind": "mutator", "spec": spec.to_json(), "doc": doc, "extra": extra})
+            continue
+        ts = dict(spec.fields)
+        for f, method, et, shape, w, r, paths in outs:
+            site = "%s.%s" % (CONTAINER_NAME[ts[f][0]], method)
+            inside = typed_inside(et)
+            rep.count("mutator", 1, (site, json.dumps(et), shape))
+            rep.stat("mutator", "site:" + site)
+            rep.stat("mutator", "scope:" + ("typed" if inside else "untyped-by-design"))
+            desc = {"kind": "mutator", "spec": spec.to_json(), "doc": doc, "extra": {f: extra[f]}, "observed": [w, r, False],
+                    "py_violates": inside and (w or r)}
+            add_case("(CIntake OCtor OwnPlain %s %s %s)" % (emit_aty(et), shape, obs_lit(w, r, False)), desc)
+            if inside:
+                py = src + "\n# x built from %r; then x.%s.%s(%r)\n" % (doc, f, method, decode(extra[f][1]))
+                if w:
+                    rep.finding("C19/writes-arg/%s/%s" % (site, label(et)), "%s modified the element it was given" % site,
+                                dict(desc, python=py))
+                for p_ in paths:
+                    rep.finding("C19/retains-arg/%s/%s" % (site, p_),
+                                "mutating the element handed to %s afterwards changed the instance (%s kept by reference)" % (site, p_),
+                                dict(desc, python=py))
     rep.sample({"class": plan[0][0].source(), "document": plan[0][1], "operations": plan[0][2]})
+    rep.sample({"class": plan[nrandom + 30][0].source(), "document": plan[nrandom + 30][1], "operations": plan[nrandom + 30][2]})
+    rep.cov["streams"].setdefault("lattice", {})["classes"] = len(plan) - nrandom
 
     # ---------------------------------------------------------------- schema_to_struct_code / schema_definitions_to_code
     ncode = 300 if tier == "quick" else 3000
@@ -1108,6 +1677,34 @@ def run(rep, tier):
         if live:
             rep.finding("C19/returns-live/convert_dict/input-document", "the document returned by convert_dict shares objects with the input document",
                         {"kind": "convert", "doc": doc, "maps": maps})
+    # ---------------------------------------------------------------- Deserializer of a Versioned class
+    nver = 80 if tier == "quick" else 800
+    for i in range(nver):
+        immutable, vdoc, api = gen_versioned(rnd)
+        desc0 = {"kind": "versioned", "immutable": immutable, "doc": vdoc, "api": api}
+        try:
+            res, extras, src = run_versioned(immutable, vdoc, api)
+        except Exception as e:  # noqa
+            rep.stat("versioned", "harness-error:" + type(e).__name__)
+            rep.broken("generator:versioned", "%s: %s" % (type(e).__name__, e), desc0)
+            continue
+        for f, (w, r, paths) in res.items():
+            inside = typed_inside(VERSIONED_TYPES[f]) or immutable
+            rep.count("versioned", 1, ("versioned", immutable, vdoc["version"], f, api))
+            rep.stat("versioned", "from-version:%d" % vdoc["version"])
+            add_case("(CSop (SVersionedDeser %s) %s)" % (E.blit(inside), obs_lit(w, r, False)),
+                     dict(desc0, field=f, observed=[w, r, False], py_violates=inside and (w or r)))
+            if not inside:
+                continue
+            if w:
+                rep.finding("C19/writes-arg/Versioned-%s/%s" % (api, label(VERSIONED_TYPES[f])),
+                            "deserializing a versioned document modified its field %r" % f, dict(desc0, python=src))
+            for p_ in paths:
+                rep.finding("C19/retains-arg/Versioned-%s/%s" % (api, p_),
+                            "mutating the versioned document afterwards changed the instance (%s kept by reference)" % p_,
+                            dict(desc0, python=src))
+        for k, what in extras:
+            rep.finding("C19/" + k, what, dict(desc0, python=src))
     Structure.set_fail_fast(fail_fast0) if hasattr(Structure, "set_fail_fast") else None
 
     # ---------------------------------------------------------------- correspondence in Coq
@@ -1121,7 +1718,9 @@ def run(rep, tier):
             body += "Eval vm_compute in (indices_where predicted_violation cases 0).\n"
             shards.append(body)
         tail = "Definition cases : list case := [].\nEval vm_compute in (map (fun p => length (fst p)) (unsafe_sites alias_sites)).\n" \
-               "Eval vm_compute in (length (unsafe_sites alias_sites)).\n"
+               "Eval vm_compute in (length (unsafe_sites alias_sites)).\n" \
+               "Eval vm_compute in (map (fun b : bool => if b then 1 else 0) [struct_gate_ok copy_tables; field_gates_ok copy_tables; " \
+               "sites_intake_ok alias_sites; atomic_table (t_setattr copy_tables); atomic_table (t_set copy_tables); t_dict_gate copy_tables]).\n"
         res = core.eval_cases(shards + [tail], "c19", HEADER)
         mism, viol, pred = [], [], []
         bad_shard = None
@@ -1138,8 +1737,15 @@ def run(rep, tier):
         rep.cov["streams"]["coq"]["violations_predicted_by_model"] = len(pred)
         rc, out, err = res[-1]
         vals = core.parse_eval(out)
-        if rc == 0 and len(vals) == 2:
+        if rc == 0 and len(vals) == 3:
             rep.cov["streams"]["coq"]["unsafe_sites_in_current_source"] = core.parse_nat_list(vals[1])[0]
+            flags = core.parse_nat_list(vals[2])
+            names = ["struct_gate_ok(copy_tables)", "field_gates_ok(copy_tables)", "sites_intake_ok(alias_sites)",
+                     "atomic_table(t_setattr)", "atomic_table(t_set)", "t_dict_gate"]
+            # which hypotheses of the intake safety theorems hold of the tables generated from the CURRENT source
+            rep.cov["streams"]["coq"]["intake_theorem_hypotheses_now"] = {n: bool(b) for n, b in zip(names, flags)}
+        else:
+            rep.broken("correspondence:tables/coq-eval", "the generated tables could not be evaluated: " + (out + err)[-800:])
         # every violation the Coq-side spec predicate sees must have been reported by the Python-side clauses
         pyviol = {i for i, (_, d) in enumerate(cases) if d.get("py_violates")}
         unreported = sorted(set(viol) ^ pyviol)
@@ -1169,8 +1775,10 @@ def run(rep, tier):
         from harness.props.c17 import broken_build
         broken_build(rep)
     return rep.finish(
-        rule="cases = (operation, generated class, field type) with operations construct / setattr / Deserializer (plain, function, "
-             "mapper, trusted) / Serializer (plain, function, mapper) / FastSerializable.serialize, plus failing construct/deserialize, "
-             "schema_to_struct_code, schema_definitions_to_code, structure_to_schema, Partial/Omit/Pick/Extend/AllFieldsRequired, "
-             "convert_dict; every argument deep-snapshotted before/after, every container of every argument and result mutated, "
-             "instance/class fingerprints compared; non-trivial = non-scalar field type; distinct = (operation, class kind, type)")
+        rule="cases = (operation, generated class, owner kind, field type, argument shape) with operations construct / setattr / "
+             "Deserializer (plain, function, mapper, trusted) / Serializer (plain, function, mapper) / FastSerializable.serialize / "
+             "wrapper mutators, plus failing construct/deserialize, Versioned deserialization, schema_to_struct_code, "
+             "schema_definitions_to_code, structure_to_schema, Partial/Omit/Pick/Extend/AllFieldsRequired, convert_dict; random "
+             "classes + the deterministic lattice owner x untyped-position type x python kind of value; every argument "
+             "deep-snapshotted before/after, every caller-mutable object of every argument and result mutated, instance/class "
+             "fingerprints compared; non-trivial = non-scalar field type; distinct = (operation, class kind, owner, type, shape)")
